@@ -270,6 +270,15 @@ def parse_file(path, cs, repo='/repo', default_pkg=None):
             cur.is_iface = (kw == 'iface')
             cs.funcs[key] = cur
             curlemma = None
+        elif kw == 'cases':
+            # cases <RelName>: continue the behaviours of a function whose contract was started
+            # elsewhere (another file or another property)
+            from .program import normfn
+            key = normfn(pkg + '::' + rest.strip())
+            if key not in cs.funcs:
+                raise ValueError('%s:%d: cases of unknown contract %s' % (path, n, key))
+            cur = cs.funcs[key]
+            curlemma = None
         elif kw == 'case':
             # case <name>: a behaviour of the current function; the clauses given so far are
             # shared, the following ones (up to the next case/func) belong to this behaviour.
@@ -289,8 +298,23 @@ def parse_file(path, cs, repo='/repo', default_pkg=None):
             cc.has_cases = False
             cc.line = n
             cc.opts.setdefault('uncovered', '100000')
+            cc.props = list(props) if props else cc.props
+            cc.imports = dict(cc.imports, **imports)
             cs.funcs[ckey] = cc
             cur = cc
+        elif kw == 'implements':
+            # implements <Iface>.<method>: the body must also satisfy that interface-method contract
+            # (its ensures become obligations with recv bound to the boxed receiver; its requires
+            # are assumed at entry)
+            from .program import normfn
+            nm = rest.strip()
+            if '.' in nm.split('/')[-1] and nm.split('.')[0] in imports:
+                a, r2 = nm.split('.', 1)
+                ikey = normfn(imports[a] + '::' + r2)
+            else:
+                ikey = normfn(pkg + '::' + nm)
+            cur.opts.setdefault('implements', '')
+            cur.opts['implements'] = (cur.opts['implements'] + ' ' + ikey).strip()
         elif kw == 'assumed':
             cur.assumed = True
         elif kw == 'pure':
@@ -308,6 +332,8 @@ def parse_file(path, cs, repo='/repo', default_pkg=None):
             cur.opts['explicit-panic'] = 'allowed'
         elif kw == 'panics-if':
             cur.panics_if.append(mk(rest))
+            if cur.case is not None:
+                cur.may_panic = False   # a behaviour that states its panic condition overrides may-panic
         elif kw == 'requires':
             if curlemma is not None:
                 curlemma.requires.append(mk(rest))
